@@ -259,18 +259,18 @@ func (p *peer) Dial(addr string, protoFunc ...ProtoFunc) (Session, *Status) {
 				oldConn.Close()
 			}
 			verifGate("redialfn.beforeOk", sess)
+			p.sessHub.set(sess)
 			sess.changeStatus(statusOk)
 			AnywayGo(sess.startReadAndHandle)
-			p.sessHub.set(sess)
 			Infof("redial ok (network:%s, addr:%s, id:%s)", p.network, addr, sess.ID())
 			return true
 		}
 	}
 
 	Infof("dial ok (network:%s, addr:%s, id:%s)", p.network, addr, sess.ID())
+	p.sessHub.set(sess)
 	sess.changeStatus(statusOk)
 	AnywayGo(sess.startReadAndHandle)
-	p.sessHub.set(sess)
 	return sess, nil
 }
 
@@ -298,9 +298,10 @@ func (p *peer) ServeConn(conn net.Conn, protoFunc ...ProtoFunc) (Session, *Statu
 		return nil, stat
 	}
 	Infof("serve ok (network:%s, addr:%s, id:%s)", network, sess.RemoteAddr().String(), sess.ID())
+	// index the session before its read loop can end it (as the listener path does)
+	p.sessHub.set(sess)
 	sess.changeStatus(statusOk)
 	AnywayGo(sess.startReadAndHandle)
-	p.sessHub.set(sess)
 	return sess, nil
 }
 
